@@ -7,7 +7,8 @@ K : Spectrum.fold / unfold / Numerics.reverse_array / apply_anc_state_misid / ma
     formulas are regenerated from the source by tools/gen_Fold.py).
 L3: the property statement evaluated directly on the implementation with explicit loops over numpy.ndindex
     (independent of the model): pairing, halves, totals, mirror invariance, mask union, fold∘unfold∘fold,
-    convex mix, refusal of mixed folding, survival of folded/mask/pop_ids.
+    convex mix, refusal of mixed folding, survival of folded/mask/pop_ids; no buffer shared between a result and its
+    operands (numpy.shares_memory + mutate-the-result / mutate-the-operand afterwards, `alias_check`).
 """
 import numpy as np, itertools, operator, copy
 from . import common
@@ -261,6 +262,12 @@ def l3_fold(chk, ctx, fs, info):
             chk.fail('fuf:mask', 'fold(unfold(fold(x))) mask differs from fold(x) mask at %s' % k.tolist(), inp)
     except Exception as e:
         chk.fail('fuf:raises:%s' % type(e).__name__, 'fold/unfold round trip raises %r' % (e,), inp)
+    # aliasing (fold and unfold are documented to return a new Spectrum)
+    a = fs.copy(); alias_check(chk, 'fold', 'fold', inp, a.fold(), [('self', a)])
+    try:
+        g = f.copy(); alias_check(chk, 'unfold', 'unfold', inp, g.unfold(), [('self', g)])
+    except Exception:
+        pass
     # input untouched
     if not np.array_equal(fs.data, x) or not np.array_equal(np.ma.getmaskarray(fs), m) or fs.folded is not False:
         chk.fail('fold:mutates-input', 'fold modified its input', inp)
@@ -293,10 +300,87 @@ def l3_misid(chk, ctx, fs, p, info):
         chk.fail('misid:total', 'misid changes the total %r -> %r' % (float(x.sum()), float(r.data.sum())), inp)
     if getattr(r, 'folded', None) is not False or r.pop_ids != fs.pop_ids:
         chk.fail('misid:attrs', 'misid result folded=%r pop_ids=%r' % (getattr(r, 'folded', None), r.pop_ids), inp)
+    a = fs.copy(); alias_check(chk, 'misid', 'apply_anc_state_misid', inp, dadi.Numerics.apply_anc_state_misid(a, p), [('fs', a)])
     if float(p) == 0.0 and np.abs(r.data - x).max() > 0:
         chk.fail('misid:p0', 'p=0 is not the identity', inp)
     if float(p) == 1.0 and np.abs(r.data - mirror_nd(x)).max() > 0:
         chk.fail('misid:p1', 'p=1 is not the mirror', inp)
+
+# ------------------------------------------------------------------ aliasing between inputs and outputs
+def _arrs(o):
+    """(data ndarray, mask ndarray or None) of an array-like operand; None for scalars"""
+    if np.ndim(o) == 0:
+        return None
+    if isinstance(o, np.ma.MaskedArray):
+        m = np.ma.getmask(o)
+        return np.asarray(o.data), (None if m is np.ma.nomask else m)
+    return np.asarray(o), None
+
+def _snap(o):
+    d, m = _arrs(o)
+    return d.copy(), (np.ma.getmaskarray(o).copy() if isinstance(o, np.ma.MaskedArray) else None)
+
+def _same_as(o, sn):
+    d, _ = _arrs(o)
+    if not np.array_equal(d, sn[0], equal_nan=True): return False
+    if sn[1] is not None and not np.array_equal(np.ma.getmaskarray(o), sn[1]): return False
+    return True
+
+def own_copy(o):
+    if isinstance(o, np.ndarray): return o.copy()          # Spectrum / masked_array / ndarray: data and mask copied
+    return o
+
+def alias_check(chk, key, what, inp, result, operands, new_object=True):
+    """`result` was just computed from `operands` (list of (label, object); the caller passes private copies).
+    (a) a result documented as a new object shares no memory (data or mask) with any operand;
+    (b) masking / writing entries of the result afterwards leaves every operand as it was, and
+    (c) masking / writing entries of an operand afterwards leaves the result as it was."""
+    if not isinstance(result, np.ndarray) or np.ndim(result) == 0 or result.size == 0:
+        return
+    ops = [(lab, o) for lab, o in operands if _arrs(o) is not None]
+    chk.l3(('alias', key))
+    rd, rm = _arrs(result)
+    if new_object:
+        for lab, o in ops:
+            od, om = _arrs(o)
+            for rn, ra in (('data', rd), ('mask', rm)):
+                for on, oa in (('data', od), ('mask', om)):
+                    if ra is not None and oa is not None and np.shares_memory(ra, oa):
+                        chk.fail('%s:alias:%s-%s' % (key, rn, on), '%s: the result\'s %s shares memory with the %s of operand `%s`'
+                                 % (what, rn, on, lab), inp)
+    snaps = [(lab, o, _snap(o)) for lab, o in ops]
+    cell = tuple(int(s // 2) for s in result.shape)
+    ways = [('mask[cell]=True', lambda r: r.mask.__setitem__(cell, True)),
+            ('r[cell]=masked', lambda r: r.__setitem__(cell, np.ma.masked)),
+            ('mask_corners()', lambda r: r.mask_corners()),
+            ('mask[...]=~mask', lambda r: r.mask.__setitem__(Ellipsis, ~np.ma.getmaskarray(r))),
+            ('data[...]+=1', lambda r: r.data.__iadd__(1.0))]
+    if not isinstance(result, np.ma.MaskedArray) or np.ma.getmask(result) is np.ma.nomask:
+        ways = ways[-1:]
+    for wn, w in ways:
+        if wn == 'mask_corners()' and not hasattr(result, 'mask_corners'): continue
+        try:
+            w(result)
+        except Exception as e:
+            chk.fail('%s:alias:mutation-raises:%s' % (key, type(e).__name__), '%s: %s on the result raises %r' % (what, wn, e), inp); return
+        for lab, o, sn in snaps:
+            if not _same_as(o, sn):
+                chk.fail('%s:alias:result-to-operand' % key, '%s: `%s` on the result changed operand `%s` (%d -> %d masked cells)'
+                         % (what, wn, lab, int(sn[1].sum()) if sn[1] is not None else -1,
+                            int(np.ma.getmaskarray(o).sum()) if isinstance(o, np.ma.MaskedArray) else -1), inp)
+                return
+    rs = _snap(result)
+    for lab, o in ops:
+        try:
+            if isinstance(o, np.ma.MaskedArray) and np.ma.getmask(o) is not np.ma.nomask:
+                o.mask[...] = ~np.ma.getmaskarray(o)
+            d, _ = _arrs(o); d += 1.0
+        except Exception:
+            continue
+        if not _same_as(result, rs):
+            chk.fail('%s:alias:operand-to-result' % key, '%s: modifying operand `%s` afterwards changed the result' % (what, lab), inp)
+            return
+
 
 def np_result(opname, reflected, a, b):
     f = NPOP[opname]
@@ -365,6 +449,20 @@ def l3_arith(chk, ctx, name, fs, other, okind, info):
         chk.fail('arith:%s:pop_ids' % name, 'pop_ids %r, expected %r' % (r.pop_ids, want_ids), inp)
     if not inplace and (not np.array_equal(fs.data, x0) or not np.array_equal(np.ma.getmaskarray(fs), m0)):
         chk.fail('arith:%s:mutates-input' % name, 'binary operator modified self', inp)
+    # aliasing: recompute on private copies, then mutate result / operands
+    a = fs.copy(); b = own_copy(other)
+    try:
+        with np.errstate(all='ignore'):
+            r2 = op(b, a) if swapped else op(a, b)
+    except Exception:
+        return
+    if inplace:
+        # `a` itself is returned; the *other* operand must stay independent of it
+        alias_check(chk, 'arith:%s' % name, '%s with a %s operand' % (name, {'S': 'Spectrum', 'M': 'masked_array', 'P': 'ndarray', 'C': 'scalar'}[okind]),
+                    inp, r2, [('other', b)], new_object=True)
+    else:
+        alias_check(chk, 'arith:%s' % name, '%s with a %s operand' % (name, {'S': 'Spectrum', 'M': 'masked_array', 'P': 'ndarray', 'C': 'scalar'}[okind]),
+                    inp, r2, [('self', a), ('other', b)], new_object=True)
 
 def l3_unary(chk, ctx, fs, info):
     inp = describe(fs)
@@ -381,6 +479,12 @@ def l3_unary(chk, ctx, fs, info):
         rm = np.ma.getmaskarray(r); m = np.ma.getmaskarray(fs)
         if (nm != 'log' and not np.array_equal(rm, m)) or (nm == 'log' and (m & ~rm).any()):
             chk.fail('unary:%s:mask' % nm, '%s loses mask entries' % nm, inp)
+        if nm in ('copy', 'deepcopy', 'log'):
+            # (-fs, +fs, abs(fs) go through numpy.ma's unary ufunc wrapper, which hands the operand's mask buffer to the
+            #  result by design of numpy.ma — observed on the unchanged tree, not dadi code, not checked here)
+            a = fs.copy()
+            with np.errstate(all='ignore'):
+                alias_check(chk, 'unary:%s' % nm, nm, inp, g(a), [('self', a)])
 
 def gen_index(rng, shape):
     """a basic index: per axis a slice (any sign of step) or an integer; at least one slice is kept"""
@@ -496,6 +600,10 @@ def l3_likelihood(chk, ctx, rng, d, tier):
             chk.fail('ll:%s:autofold' % nm, '%s(model, folded data) != %s(model.fold(), folded data)' % (nm, nm), inp)
         if not same(model, s_model) or not same(data_f, s_data):
             chk.fail('ll:%s:mutates' % nm, '%s changed folded/mask/pop_ids/data of its arguments' % nm, inp)
+        if isinstance(a, np.ndarray) and np.ndim(a) > 0:
+            ma_, da_ = model.copy(), data_f.copy()
+            with np.errstate(all='ignore'):
+                alias_check(chk, 'll:%s' % nm, nm, inp, f(ma_, da_), [('model', ma_), ('data', da_)])
         if hasattr(a, 'folded') and np.ndim(a) > 0:
             if a.folded is not True:
                 chk.fail('ll:%s:result-folded' % nm, 'per-bin result against folded data has folded=%r' % (a.folded,), inp)
@@ -581,6 +689,7 @@ def run(chk, ctx):
                 'method call (K) and by operator syntax (L3); random basic indices (negative steps, integer indices). '
                 'non-trivial = distinct (d, parity, mask kind, data kind, shape) for fold, (method, operand kind, d, folded, mismatch) for arithmetic')
     chk.unproved = ['IEEE round-off: the float implementation agrees with the exact model to 1e-9 relative (K), theorems are about exact rationals',
+                    'aliasing between results and operands is not part of the value-level model: only the `copy` flag of the binary template is translated (C09_arith_fresh); shares_memory and mutate-after checks are L3',
                     'unary operators, copy, .log(): handled by numpy.ma machinery (__array_finalize__/__array_wrap__), checked by L3 only',
                     'powers with non-integer exponents and division by zero are outside the exact model (K skips them; L3 checks mask/folded/labels there too)',
                     'the Python data-model dispatch from operator syntax to the template methods is checked by L3, not proved',
